@@ -155,6 +155,32 @@ template <class X> struct Esc {
     }
 };
 
+// Wide characters above U+00FF (wchar_t API only). The property does not exempt them: what is escaped must come back. The
+// pinned library escapes such a character by its low byte ("%AC" for U+20AC), so it comes back as another character -- a
+// recorded finding (KNOWN_FINDINGS.txt); the diagnoser confirms that very behaviour, anything else is a violation of its own.
+static void wide_above_255(Ctx& c, const Str& s8) {
+    typedef ApiW X; typedef wchar_t Char;
+    std::basic_string<wchar_t> w = widen<X>(s8); for (auto& ch : w) if (!ch) ch = L'x';
+    static const unsigned HI[] = {0x100, 0x141, 0x20AC, 0x416, 0x4E2D, 0xFFFD, 0x10000, 0x1F600, 0x10FFFF, 0x2500, 0x0D00 + 0x0A, 0xFF0D};
+    int n = 1 + (int)c.rng.below(3); for (int i = 0; i < n; i++) { size_t p = c.rng.below((uint32_t)w.size() + 1); w.insert(w.begin() + (long)p, (wchar_t)HI[c.rng.below(12)]); }
+    int plus = (int)c.rng.below(2), nb = (int)c.rng.below(2);
+    std::vector<Char> out((nb ? 6 : 3) * w.size() + 1 + 8, (Char)0x5A5A5A);
+    Char* end; { LibScope ls; end = X::EscapeEx(w.data(), w.data() + w.size(), out.data(), plus, nb); }
+    c.evaluations++; c.count("escape_wide_above_255");
+    Str shown; for (wchar_t ch : w) shown += (unsigned)ch > 255 ? fmt("\\u{%X}", (unsigned)ch) : esc(Str(1, (char)ch));
+    Str what = fmt("uriEscapeExW(\"%s\", spaceToPlus=%d, normalizeBreaks=%d)", shown.c_str(), plus, nb);
+    if (!end || end < out.data() || (size_t)(end - out.data()) > (nb ? 6 : 3) * w.size()) { c.violation("C16", "escape/W/above-255/bound-or-pointer", what); return; }
+    if (*end != 0) c.violation("C16", "escape/W/above-255/not-terminated", what);
+    for (Char* q = out.data(); q < end; q++) { unsigned v = (unsigned)*q; bool ok = v < 128 && (isalnum((int)v) || v == '-' || v == '.' || v == '_' || v == '~' || v == '%' || (v == '+' && plus)); if (!ok) { c.violation("C16", "escape/W/above-255/illegal-character-in-output", what); return; } }
+    std::vector<Char> back(out.data(), end + 1); const Char* e2; { LibScope ls; e2 = X::UnescapeInPlaceEx(back.data(), plus, URI_BR_DONT_TOUCH); }
+    std::basic_string<wchar_t> got(back.data(), (size_t)((e2 ? e2 : back.data()) - back.data()));
+    std::basic_string<wchar_t> want; for (size_t i = 0; i < w.size(); i++) { if (nb && (w[i] == 13 || w[i] == 10)) { if (w[i] == 13 && i + 1 < w.size() && w[i + 1] == 10) i++; want += L"\r\n"; } else want.push_back(w[i]); }
+    if (got == want) { c.count("escape_wide_above_255_round_trip_ok"); return; }
+    std::basic_string<wchar_t> legacy = want; for (auto& ch : legacy) if ((unsigned)ch > 255) ch = (wchar_t)((unsigned)ch & 0xFF);
+    if (got == legacy) c.violation("C16", "escape/W/character-above-U+00FF-escaped-as-its-low-byte", what);
+    else c.violation("C16", "escape/W/above-255/round-trip-differs-otherwise", what);
+}
+
 static Esc<ApiA>* eA; static Esc<ApiW>* eW;
 static void run_case(Ctx& c, uint64_t idx) {
     if (!eA) { eA = new Esc<ApiA>(); eW = new Esc<ApiW>(); }
@@ -169,6 +195,7 @@ static void run_case(Ctx& c, uint64_t idx) {
     if (idx % 2 == 0) { eA->escape_checks(c, s); eA->unescape_checks(c, s); } else { eW->escape_checks(c, s); eW->unescape_checks(c, s); }
     if (idx % 10 == 0) { eW->unescape_checks(c, s); eA->escape_checks(c, s); }
     if (idx % 6 == 1 && s.size() <= 64) { if (idx % 12 == 1) eA->adjacent_checks(c, s); else eW->adjacent_checks(c, s); }
+    if (c.case_index % 16 == 5 && s.size() <= 64) wide_above_255(c, s);
     if (idx % 9000 == 2) c.sample("string", esc(s));
 }
 static void fuzz_one(Ctx& c, const unsigned char* d, size_t n) {
